@@ -121,9 +121,18 @@ def guarded(fn, seconds=WATCHDOG_S):
         signal.signal(signal.SIGALRM, old)
 
 
+CODE_UNDER_TEST = ("get_last_an_time", "get_orbit_number", "get_equatorial_crossing_time")
+
+
 def is_refusal(e):
-    """decay / refusal of the propagator (C13's subject), as opposed to an accident inside the code under test"""
-    return type(e).__name__ == "OrbitalError" or "crashed" in str(e)
+    """decay / refusal of the propagator (C13's subject), as opposed to an accident inside the code under test: an
+    exception that one of the three functions of this property raises ITSELF (innermost frame) is that function not
+    terminating with a result, whatever its type."""
+    import traceback
+    if not (type(e).__name__ == "OrbitalError" or "crashed" in str(e)):
+        return False
+    tb = traceback.extract_tb(e.__traceback__)
+    return not (tb and tb[-1].name in CODE_UNDER_TEST and tb[-1].filename.endswith("orbital.py"))
 
 
 def raised(e):
@@ -280,6 +289,29 @@ def gen_tle(ctx, family):
             ov["mmotion"] = "%11.8f" % (math.sqrt(398600.8 / a_km ** 3) * 86400.0 / (2 * math.pi))
             ov["argp"] = "%8.4f" % (r.choice([90.0, 270.0]) + r.choice([0.0, r.uniform(-30, 30), r.uniform(-10, 10)]))
             ov["incl"] = "%8.4f" % r.choice([r.uniform(3, 177), r.uniform(30, 150), 63.4349, 116.5651])
+            regime = "near"
+        elif family == "slow":
+            # the slow end of the near-earth domain: mean motion from the smallest the library takes as near-earth (period
+            # just below 225 min, located on the Brouwer period of an own transcription of the model's recovery) up to
+            # 9 rev/day (160 min); circular and moderately eccentric.  A revolution takes up to 22 ten-minute steps of the
+            # backward scan.  Eccentric members keep |sin i| > 0.6 (the apsidal drift of eccentric low-inclination sets is
+            # the recorded finding K-C11-ECCENTRIC-APSIDAL, whose population stays what it was).
+            ecc = r.choice([10 ** r.uniform(-5, -2.7), r.uniform(0.01, 0.25)])
+            e7 = min(max(int(ecc * 1e7), 1), 9999999)
+            if ecc < 0.02:
+                incl = r.choice([r.uniform(3, 177), r.uniform(3, 177), 63.4349, r.uniform(80, 100), r.uniform(3, 30), r.uniform(150, 177)])
+            else:
+                incl = r.choice([r.uniform(37, 143), r.uniform(37, 143), 63.4349, 116.5651, r.uniform(80, 100)])
+            incl = float("%8.4f" % incl)
+            lo, hi = 6.0, 6.8
+            for _ in range(60):        # printed mean motion whose Brouwer period is 225 min (decreasing in the mean motion)
+                mid = 0.5 * (lo + hi)
+                if tlegen.brouwer(mid, e7 / 1e7, incl)[1] > 225.0:
+                    lo = mid
+                else:
+                    hi = mid
+            mm = r.choice([hi + 10 ** r.uniform(-7.5, -1), r.uniform(hi, 8.0), r.uniform(hi, 9.0)])
+            ov.update({"incl": "%8.4f" % incl, "ecc": "%07d" % e7, "mmotion": "%11.8f" % mm})
             regime = "near"
         else:
             ov["incl"] = "%8.4f" % r.choice([r.uniform(3, 177), r.uniform(3, 177), 98.7, 51.6, 63.4349, r.uniform(80, 100)])
